@@ -33,7 +33,8 @@ CMP = ("x", "fun", "jac", "nfev", "njev", "nit", "sk", "yk")
 
 def floors(tier):
     return {"callback_states": 300, "states_vs_maxiter_run": 300, "retained_states_rechecked": 800, "crash_points": 500,
-            "restarts_from_retained_state": 500, "callback_free_runs_compared": 60, "__nontrivial__": 300}
+            "restarts_from_retained_state": 500, "callback_free_runs_compared": 60, "callback_free_runs_compared_with_objective_redefined": 60,
+            "ufd_runs_stopped_by:FTOL": 20, "continuations_compared_to_the_end": 400, "continuations_through_a_failed_line_search": 40, "__nontrivial__": 300}
 
 
 def exhaustive(tier):
@@ -46,8 +47,22 @@ def cases(tier, seed):
     for i in range(nprob):
         ps = gen.rand_spec(rng, FAMS, nmax=7, nmin=2, boxes=("none", "mixed", "boxed", "lower", "narrow"),
                            starts=("interior", "face", "vertex", "outward"), condmax=1e3)
-        yield {"problem": ps, "maxcor": int(rng.integers(1, 7)), "maxls": int(gen.pick(rng, [2, 5, 20])), "K": int(rng.integers(4, 13)),
-               "scaler": float(np.exp(rng.uniform(np.log(1e-2), np.log(1e2)))) if i % 3 == 0 else None}
+        spec = {"problem": ps, "maxcor": int(rng.integers(1, 7)), "maxls": int(gen.pick(rng, [2, 5, 20])), "K": int(rng.integers(4, 13)),
+                "scaler": float(np.exp(rng.uniform(np.log(1e-2), np.log(1e2)))) if i % 3 == 0 else None}
+        if i % 4 == 1:
+            # long runs with a starved line search: several failed line searches (memory reboots) inside one run; the crash
+            # enumeration is limited to the first callbacks, every state is followed to the end of the run
+            spec["problem"] = gen.rand_spec(rng, ("rosenbrock", "rosenbrock", "beale", "rastrigin"), nmax=4, nmin=2, boxes=("none", "mixed", "lower"),
+                                            starts=("interior", "face"))
+            spec.update(K=int(rng.integers(20, 45)), maxls=int(gen.pick(rng, [1, 2, 2, 3])), long=True)
+        yield spec
+    # a callback that returns False must not alter a run whose objective is redefined on the fly either (relative-reduction / target stops)
+    nu = 120 if tier == "quick" else 3000
+    for i in range(nu):
+        ps = gen.rand_spec(rng, ("qp", "qp_quartic", "qp_softplus"), nmax=7, nmin=2, boxes=("none", "mixed", "boxed", "lower"), starts=("interior", "face"), condmax=1e3)
+        yield {"kind": "ufd_callback", "problem": ps, "maxcor": int(rng.integers(1, 7)), "maxls": int(gen.pick(rng, [2, 5, 20])),
+               "ftol": float(gen.pick(rng, [1e-1, 1e-2, 1e-3, 1e-5])), "lam0": float(np.exp(rng.uniform(np.log(0.1), np.log(20.0)))),
+               "decay": float(rng.uniform(0.3, 0.9)), "from_call": int(rng.integers(0, 4)), "target": bool(rng.random() < 0.3)}
 
 
 def relerr(a, b):
@@ -77,8 +92,93 @@ def judge_retained(out, rec, where, tags):
     return True
 
 
+class Reweighted:
+    """f_j(x) = f(x) + lam_j/2 |x|^2 with lam_j = lam0*decay^j: a regularisation weight relaxed at every call of the update function."""
+
+    def __init__(self, P, lam0, decay):
+        self.P, self.lam0, self.decay, self.j = P, lam0, decay, 0
+        self.n, self.lb, self.ub, self.x0, self.bounds, self.spec, self.meta = P.n, P.lb, P.ub, P.x0, P.bounds, P.spec, P.meta
+
+    @property
+    def lam(self):
+        return self.lam0 * self.decay ** self.j
+
+    def f(self, x):
+        return self.P.f(x) + 0.5 * self.lam * float(x @ x)
+
+    def g(self, x):
+        return self.P.g(x) + self.lam * x
+
+
+def run_ufd_callback(spec, out):
+    """(c) for runs with update_fun_def: with and without a callback returning False the result is bit-identical."""
+    from collections import deque
+
+    P = gen.make_problem(spec["problem"])
+    tags = dict(family=P.spec["family"], kind="ufd_callback")
+    name = f"{P.spec['family']} n={P.n} maxcor={spec['maxcor']} update_fun_def relaxing a weight from call {spec['from_call']} on, ftol={spec['ftol']:g}"
+    res = []
+    for with_cb in (False, True):
+        R = Reweighted(P, spec["lam0"], spec["decay"])
+        calls = {"n": 0, "rewrites": 0}
+
+        def ufd(x, f0, f0_old, grad, X, G, R=R, calls=calls):
+            k = calls["n"]
+            calls["n"] += 1
+            if k < spec["from_call"]:
+                return f0, f0_old, grad, G
+            R.j += 1
+            calls["rewrites"] += 1
+            Gn = deque(R.g(np.array(p, copy=True)) for p in X)
+            xo = np.array(X[-1], copy=True) if len(X) else np.array(x, copy=True)
+            return R.f(np.array(x, copy=True)), R.f(xo), R.g(np.array(x, copy=True)), Gn
+
+        cfg = dict(jac="callable", maxcor=spec["maxcor"], maxls=spec["maxls"], ftol=spec["ftol"], gtol=1e-12, maxfun=100000, maxiter=40,
+                   cb="never" if with_cb else None)
+        if spec["target"]:
+            old = np.seterr(all="ignore")
+            cfg["ftarget"] = 0.5 * (P.f(P.x0.copy()) + 0.5 * spec["lam0"] * float(P.x0 @ P.x0))
+            np.seterr(**old)
+        tr = probes.run_min(R, cfg, hooks={"ufd": ufd})
+        res.append((tr, calls["rewrites"]))
+    (a, ra), (b, rb) = res
+    out.count("callback_free_runs_compared")
+    out.count("callback_free_runs_compared_with_objective_redefined")
+    if (a.exc is None) != (b.exc is None):
+        out.violate("callback_alters_run", f"{name}: one of the two runs raised ({a.exc!r} / {b.exc!r})", **tags)
+        return
+    if a.exc is not None:
+        out.count("runs_raised")
+        return
+    key = e2e_key(a.snap["message"])
+    out.count("ufd_runs_stopped_by:" + key)
+    bad = probes.diff_states(a.snap, b.snap)
+    same_log = len(a.evals) == len(b.evals) and all(u[0] == v[0] and np.array_equal(u[1], v[1]) for u, v in zip(a.evals, b.evals))
+    if bad or not same_log:
+        out.violate("callback_alters_run", f"{name}: with a callback returning False fields {bad} / evaluation log ({len(b.evals)} vs {len(a.evals)} calls) "
+                    f"differ from the run without callback (both stop with {a.snap['message']!r} / {b.snap['message']!r})", **tags)
+        return
+    # the states handed out must not be tied to the result either
+    for j, rec in enumerate(b.cb):
+        out.count("retained_states_rechecked")
+        if not judge_retained(out, rec, f"{name}: state of callback #{j} re-read after the run", dict(tags, when="end")):
+            return
+    out.nontrivial = ra > 0 and key in ("FTOL", "TARGET")
+    out.key = f"ufd_callback/{P.spec['family']}/{P.spec['seed']}/{spec['maxcor']}/{spec['ftol']}"
+    out.sample = dict(spec=spec, message=a.snap["message"], rewrites=ra)
+
+
+def e2e_key(msg):
+    from ..e2e import MSG_KEY
+
+    return MSG_KEY.get(msg, "OTHER")
+
+
 def run(spec):
     out = Outcome()
+    if spec.get("kind") == "ufd_callback":
+        run_ufd_callback(spec, out)
+        return out
     P = gen.make_problem(spec["problem"])
     K = spec["K"]
     base = dict(jac="callable", maxcor=spec["maxcor"], maxls=spec["maxls"], ftol=0.0, gtol=1e-12, maxfun=100000)
@@ -165,10 +265,81 @@ def run(spec):
     if nits != sorted(set(nits)):
         out.violate("callback_nit_not_increasing", f"{name}: state.nit sequence {nits}", **tags)
 
+    # (e) every retained state followed to the end of the run: the continuation must go through the same iterates and end the
+    # same way (same iteration count, same termination reason) as the uninterrupted run, as long as rounding has not separated them
+    main_by_nit = {int(r["snap"]["nit"]): r["snap"]["x"] for r in main_tr.cb}
+    # first iteration of the uninterrupted run that lies in the round-off regime (decrease of the objective below 1e-9 relative, or
+    # projected gradient below 1e-6): from there on whether a line search finds a lower point is decided by rounding, and so are
+    # the reported iterations and the termination reason
+    horizon = K + 1
+    prev_f = None
+    for r in main_tr.cb:
+        fk = float(r["snap"]["fun"])
+        pgk = gen.pg_inf(np.asarray(r["snap"]["x"], dtype=float), np.asarray(r["snap"]["jac"], dtype=float), P.lb, P.ub)
+        if (prev_f is not None and not (prev_f - fk > 1e-9 * max(1.0, abs(prev_f), abs(fk)))) or not (pgk > 1e-6 * max(1.0, abs(fk))):
+            horizon = int(r["snap"]["nit"])
+            break
+        prev_f = fk
+    # iterations of the uninterrupted run whose curvature pair was stored (newest pair == x_m - x_(m-1)); when a pair is rejected the
+    # run keeps an older base point that the state cannot carry (known_findings.json, C12-skipped-update-base-point; DESIGN.md C06):
+    # the run and any restart part ways one iteration later, so only rejection-free continuations are judged here
+    stored = []
+    prev_x = np.clip(P.x0, P.lb, P.ub)
+    for r in main_tr.cb:
+        sk = r["snap"]["sk"]
+        stored.append(bool(sk is not None and sk.shape[0] >= 1 and np.array_equal(sk[-1], r["snap"]["x"] - prev_x)))
+        prev_x = r["snap"]["x"]
+    for j, rec in enumerate(main_tr.cb):
+        st = rec["ref"]
+        k = int(rec["snap"]["nit"])
+        if k >= K:
+            continue
+        if not all(stored[m] for m in range(j, len(main_tr.cb)) if int(main_tr.cb[m]["snap"]["nit"]) < horizon):
+            out.count("continuations_after_a_rejected_pair_not_judged")
+            continue
+        rbase = dict(base)
+        if rbase.pop("scaler", None) is not None:
+            rbase["explicit_scale"] = spec["scaler"]
+        rs = probes.run_min(P, dict(rbase, maxiter=K, cb="never"), checkpoint=st, x0=np.array(st.x, dtype=float, copy=True))
+        out.count("continuations_followed_to_the_end")
+        if rs.exc is not None:
+            out.violate("restart_from_retained_state_raised", f"{name}: continuation from the state of callback #{j} raised {rs.exc!r}", **tags)
+            break
+        diverged = False
+        for r2 in rs.cb:
+            m = int(r2["snap"]["nit"])
+            if m not in main_by_nit:
+                continue
+            if relerr(r2["snap"]["x"], main_by_nit[m]) > 1e-6:
+                diverged = True
+                break
+        nits_main = sorted(m for m in main_by_nit if k < m < horizon)
+        nits_rs = sorted(int(r2["snap"]["nit"]) for r2 in rs.cb if int(r2["snap"]["nit"]) < horizon)
+        if k + 1 >= horizon:
+            out.count("continuations_in_round_off_regime")
+            continue
+        if diverged or (rec["snap"]["sk"] is not None and rec["snap"]["sk"].shape[0] > P.n) or probes.grazes_bound(st.x, P.lb, P.ub):
+            out.count("continuations_separated_by_rounding")
+            continue
+        out.count("continuations_compared_to_the_end")
+        if main_tr.snap["message"] == MESSAGES["ABNORMAL"] or any(b - a > 1 for a, b in zip([k] + nits_main, nits_main)):
+            out.count("continuations_through_a_failed_line_search")
+        ends_differ = (int(rs.snap["nit"]) != int(main_tr.snap["nit"]) or rs.snap["message"] != main_tr.snap["message"])
+        if int(main_tr.snap["nit"]) >= horizon and int(rs.snap["nit"]) >= horizon:
+            ends_differ = False  # both end inside the round-off regime: not judged
+        if nits_rs != nits_main or ends_differ:
+            out.violate("continuation_ends_differently", f"{name}: restarted from the state of callback #{j} (nit={k}) the run reports iterations {nits_rs} and ends at "
+                        f"nit={rs.snap['nit']} with {rs.snap['message']!r}; the uninterrupted run reports {nits_main} and ends at nit={main_tr.snap['nit']} with "
+                        f"{main_tr.snap['message']!r} (iterations below {horizon} compared), although the iterates they share agree to 1e-6: the continuation depends on something the state does not carry", **tags)
+            break
+    if out.violations:
+        out.sample = dict(spec=spec)
+        return out
+
     # (d) crash after callback k, restart from the retained (referenced) state
     for j, rec in enumerate(main_tr.cb):
         k = int(rec["snap"]["nit"])
-        if k >= K:
+        if k >= K or (spec.get("long") and j >= 4):
             continue
         nxt = full(k + 1)
         if nxt.exc is not None or nxt.result.message != MESSAGES["ITER"]:
